@@ -10,6 +10,7 @@ import (
 	"sort"
 	"strings"
 
+	"golang.org/x/tools/go/ssa"
 	"gosx/smt"
 )
 
@@ -91,6 +92,17 @@ type exec struct {
 	frozenMaps  []*omap
 	nblob       int
 	env         map[string]interface{} // per-run stub state (zip recorder, decoders, ...)
+
+	// speculative branch merging (merge.go)
+	spec      int
+	specStack []*specState
+	freshCells map[*value]bool
+	freshMaps map[*omap]bool
+	noMerge   bool
+	noMergeAt map[*ssa.If]bool
+	lastAbort string
+	merges    int
+	mergeFail map[string]int
 }
 
 type knownRegion struct {
@@ -123,7 +135,7 @@ func (x *exec) assume(t *smt.Term) {
 		}
 		return
 	}
-	x.pc = append(x.pc, t)
+	x.addDef(t)
 }
 
 func (x *exec) abandon(why string) {
@@ -147,12 +159,29 @@ func (x *exec) query(extra *smt.Term, model bool) (smt.Result, *smt.Model) {
 // decide resolves a symbolic condition to a concrete branch, forking if both
 // sides are feasible. Returns the truth value taken on this run.
 func (x *exec) decide(c *smt.Term) bool {
+	b, _, _ := x.decideBranch(c, nil, nil)
+	return b
+}
+
+// decideBranch is decide with the option of merging both arms of an If (fr, instr non-nil).
+func (x *exec) decideBranch(c *smt.Term, fr *frame, instr *ssa.If) (taken bool, merged bool, k continuation) {
 	if c.IsConst() {
-		return c.B
+		return c.B, false, 0
 	}
 	n := len(x.decisions)
 	if n < len(x.prefix) {
 		d := x.prefix[n]
+		if d.B == 2 {
+			if fr == nil {
+				panic(fmt.Sprintf("engine: nondeterministic re-execution (merge decision at a non-branch, %d)", n))
+			}
+			x.decisions = append(x.decisions, d)
+			k, ok := x.tryMerge(fr, instr, c)
+			if !ok {
+				panic(fmt.Sprintf("engine: nondeterministic re-execution (merge at %d did not repeat: %s)", n, x.lastAbort))
+			}
+			return false, true, k
+		}
 		if d.B < 0 {
 			panic(fmt.Sprintf("engine: nondeterministic re-execution (branch decision expected, got value decision at %d)", n))
 		}
@@ -162,7 +191,7 @@ func (x *exec) decide(c *smt.Term) bool {
 		} else {
 			x.pc = append(x.pc, x.tb.Not(c))
 		}
-		return d.B == 1
+		return d.B == 1, false, 0
 	}
 	if len(x.decisions) > x.maxDecisions() {
 		x.stats.UnwindFailures++
@@ -179,25 +208,40 @@ func (x *exec) decide(c *smt.Term) bool {
 	}
 	switch {
 	case tOK && fOK:
+		if fr != nil && rt == smt.Sat && rf == smt.Sat {
+			x.decisions = append(x.decisions, Decision{B: 2})
+			if k, ok := x.tryMerge(fr, instr, c); ok {
+				return false, true, k
+			}
+			x.decisions = x.decisions[:n]
+		} else {
+			x.lastAbort = "not a branch"
+		}
+		if x.spec > 0 {
+			panic(specAbort{"fork inside a speculative arm"})
+		}
 		sib := append(append([]Decision(nil), x.decisions...), Decision{B: 0})
 		x.siblings = append(x.siblings, sib)
 		x.decisions = append(x.decisions, Decision{B: 1})
 		x.pc = append(x.pc, c)
-		return true
+		if x.curPos != nil {
+			x.mergeFail["fork at "+x.curPos()+" ["+x.lastAbort+"]"]++
+		}
+		return true, false, 0
 	case tOK:
 		x.decisions = append(x.decisions, Decision{B: 1})
 		x.pc = append(x.pc, c)
-		return true
+		return true, false, 0
 	case fOK:
 		x.decisions = append(x.decisions, Decision{B: 0})
 		x.pc = append(x.pc, x.tb.Not(c))
-		return false
+		return false, false, 0
 	}
 	x.stats.InfeasiblePaths++
 	panic(pathEnd{"path condition infeasible"})
 }
 
-func (x *exec) maxDecisions() int { return 400 }
+func (x *exec) maxDecisions() int { return 6000 }
 
 // obligation checks that c holds on every input reaching this point, records a
 // failure otherwise, then continues under c.
@@ -331,6 +375,9 @@ func (x *exec) concretize(v value, what string) value {
 	cs := cand.I.String()
 	// other values feasible?
 	if r2, _ := x.query(tb.Not(tb.Eq(s.t, cand)), false); r2 != smt.Unsat {
+		if x.spec > 0 {
+			panic(specAbort{"value fork inside a speculative arm"})
+		}
 		sib := append(append([]Decision(nil), x.decisions...), Decision{B: -1, Excl: append(append([]string(nil), excl...), cs)})
 		x.siblings = append(x.siblings, sib)
 	}
